@@ -47,11 +47,13 @@ QtO == QtTerms \cup Iris({"b/"}, {"y"})
 
 \* rejection slice
 End == <<"end">>          \* the statement tuple ends here (malformed tuple: next(terms) raises)
-RejS == Iris({"a/", "b/"}, {"x", "y"}) \cup {Bad, End}
+RejQt == {<<"qt", <<"iri", "b/", "y">>, <<"iri", "a/", "x">>, Bad>>,
+          <<"qt", <<"iri", "c/", "z">>, Bad, <<"iri", "a/", "x">>>>,
+          <<"qt", <<"iri", "b/", "y">>, TypedLit("1", "d:a"), <<"iri", "a/", "x">>>>,
+          <<"qt", <<"iri", "c/", "z">>, <<"iri", "a/", "x">>, <<"qt", <<"iri", "b/", "w">>, <<"iri", "a/", "x">>, Bad>>>>}
+RejS == Iris({"a/", "b/"}, {"x", "y"}) \cup {Bad, End} \cup RejQt
 RejP == Iris({"a/"}, {"x", "y"}) \cup {Bad, End}
-RejO == Iris({"a/", "b/"}, {"x"}) \cup {TypedLit("1", "d:a"), PlainLit("l"), Bad, End,
-          <<"qt", <<"iri", "b/", "y">>, <<"iri", "a/", "x">>, Bad>>,
-          <<"qt", <<"iri", "b/", "y">>, TypedLit("1", "d:a"), <<"iri", "a/", "x">>>>}
+RejO == Iris({"a/", "b/"}, {"x"}) \cup {TypedLit("1", "d:a"), PlainLit("l"), Bad, End} \cup RejQt
 RejG == {DG, <<"iri", "a/", "x">>, <<"iri", "b/", "y">>, Bad, End, TypedLit("1", "d:a")}
 
 \* quads / graphs slice: graph names of every kind
@@ -89,7 +91,7 @@ R11G == {DG, Bn("g")} \cup Iris({"a/", "b#", ""}, {"n0", "n3", "x"})
 
 \* C18: statements that need more entries than an enabled table has slots
 I(p, n) == <<"iri", p, n>>
-C18Iri == Iris({"a/", "b#", "c/", "d#"}, {"x", "y"})
+C18Iri == Iris({"a/", "b#", "c/", "d#", ""}, {"x", "y"})          \* incl. IRIs without a namespace part: the empty prefix takes a slot too
 C18IriG == C18Iri \cup {DG}
 C18Dt == {TypedLit("1", "d:a"), TypedLit("1", "d:b"), TypedLit("1", "d:c"), TypedLit("2", "d:d"), Bn("b1")}
 C18DtG == {TypedLit("1", "d:a"), TypedLit("1", "d:e"), DG}
